@@ -188,6 +188,7 @@ def run_structure_vector(vec):
         kw["inflow_at"] = setting
     else:
         kw["n_pts_per_interval"] = int(setting[2:])
+        kw["inflow_at"] = ["start", "middle", "end"][variant % 3]     # documented to be ignored for n > 1
     problems = []
     try:
         if variant % 2:
@@ -199,6 +200,14 @@ def run_structure_vector(vec):
         pdf = np.array(lm.pdf)
     except Exception as e:
         return [f"{{C08}} {model}/{setting}: building the tables raised {type(e).__name__}: {str(e)[:200]}"]
+    try:
+        twin = lm.model_copy()
+        twin.set_prms(**{names[0]: (a1 * 1.5 if not isinstance(a1, FlodymArray) else a1 * 1.5), names[1]: a2})
+        _ = twin.sf
+        if not np.array_equal(np.array(lm.sf), sf):
+            problems.append(f"{{C08,C15}} {model}/{setting}: re-parameterising a COPY of the lifetime model changed the original's survival table")
+    except Exception as e:
+        problems.append(f"{{C08}} {model}/{setting}: copying / re-parameterising the model raised {type(e).__name__}: {str(e)[:120]}")
     A2 = vec["config"]["a2"]
     L2 = vec["config"]["dt2"]
     e1, e2 = effective(S, first), effective(S, second)
